@@ -104,9 +104,7 @@ fn rename_component(d: &doc::Doc, old: &str, new: &str) -> doc::Doc {
 pub fn sweep(p: &Program, variant: usize) -> Result<(u64, u64), (String, String)> {
     let l = layout(p, variant);
     let original = emitted(&l.texts).map_err(|e| ("harness: original not accepted".to_owned(), e))?;
-    let files: Vec<(&str, &str)> = l.texts.iter().map(|(n, t)| (n.as_str(), t.as_str())).collect();
-    let ws = TempWorkspace::new(&files).map_err(|e| ("harness: workspace".to_owned(), e.to_string()))?;
-    let mut srv = LspServer::start(ws.path()).map_err(|e| ("harness: cannot start oal-lsp".to_owned(), e.to_string()))?;
+    let (_ws, mut srv) = l.start()?;
     let mut requests = 0u64;
     let mut renames = 0u64;
     for (mi, pos, off) in l.positions() {
@@ -154,7 +152,7 @@ pub fn sweep(p: &Program, variant: usize) -> Result<(u64, u64), (String, String)
         let mut edits: BTreeMap<usize, Vec<(usize, usize)>> = BTreeMap::new();
         if let Some(ch) = edit.get("changes").and_then(|c| c.as_object()) {
             for (uri, es) in ch.iter() {
-                let f = srv.relative(uri).to_owned();
+                let f = srv.relative_path(uri);
                 let Some(m) = l.module_index(&f) else {
                     return Err(("rename | edit in a file outside the program".into(), format!("at {here}: {uri}")));
                 };
@@ -272,7 +270,7 @@ pub fn sweep(p: &Program, variant: usize) -> Result<(u64, u64), (String, String)
 
 pub fn judge(p: &Program, sink: Option<&mut Sink>) -> Outcome {
     let (mut rq, mut rn) = (0u64, 0u64);
-    for variant in 0..2 {
+    for variant in variants_of(p) {
         match sweep(p, variant) {
             Ok((a, b)) => {
                 rq += a;
@@ -291,7 +289,7 @@ pub fn judge(p: &Program, sink: Option<&mut Sink>) -> Outcome {
     if let Some(s) = sink {
         s.count("requests", rq);
         s.count("renames", rn);
-        s.count("sessions", 2);
+        s.count("sessions", variants_of(p).len() as u64);
     }
     Outcome::ok(
         if rn > 0 { "every offered rename is an alpha-conversion" } else { "no rename offered" },
